@@ -69,7 +69,7 @@ def check_held(acc, m, e, n, unit, pwm):
 def bounds(tier):
     return {'m_max': 25 if tier == 'quick' else 99, 'e': [0, 1, 2, 3], 'n_max': 60 if tier == 'quick' else 120,
             'units': UNITS, 'continuation': 'n2 in {2,3,7} after n1 = n',
-            'long_runs_n_max': 200 if tier == 'quick' else 1000}
+            'long_runs_n_max': 200 if tier == 'quick' else '1000 (every n to 200, every 7th beyond)'}
 
 
 def shards(tier):
@@ -280,7 +280,9 @@ def run_shard(shard, tier):
                             acc.nstates += 1
     # long runs: the quotient T/dt of a decimal step drifts below / above the integer n by an error that grows with n
     lo, hi = (nmax + 1, 200) if tier == 'quick' else (nmax + 1, 1000)
-    for n in range(lo, hi + 1):
+    # (thorough: every 7th n beyond 200, the offset rotating with the step, so that all residues are met across the shards)
+    ns = list(range(lo, hi + 1)) if tier == 'quick' else list(range(lo, 201)) + list(range(201 + (m % 7), hi + 1, 7))
+    for n in ns:
         unit = UNITS[(n + m) % 4]
         check_run(acc, m, shard['e'], n, 'lit' if n % 2 else 'mul', unit, cont=((5, 'lit') if n % 50 == 0 else None))
         acc.nstates += 1
